@@ -103,13 +103,16 @@ def check(prop, tier, seed):
     broken = []       # names of theorems / correspondences that no longer check
     notes = []
 
-    # 1. Tie A: regenerate Generated/*.lean from /repo's working tree
-    from . import translate_run
-    gen = translate_run.regenerate()
-    for fn in getattr(mod, 'GENERATED', []):
-        st = gen.get(fn)
-        if st is None or st.get('status') != 'ok':
-            broken.append(f"translator refuses {fn}: {st.get('reason') if st else 'not in catalogue'}")
+    # 1. Tie A (translator) for the loop-free integer code this property rests on: regenerated from the current source
+    gen = {}
+    tie_names = list(getattr(mod, 'TIE_A', []))
+    tie_ax = {}
+    if tie_names:
+        tie_ax, tst, tlog = core.tie_a()
+        gen = tst.get('status', {}) if isinstance(tst, dict) else {}
+        for fn, st in gen.items():
+            if st.get('status') != 'ok' and any(t.startswith(fn) for t in tie_names):
+                broken.append(f"translator refuses {fn}: {st.get('reason')}")
 
     # 2. build the property's theorems and the driver
     targets = list(getattr(mod, 'LEAN_TARGETS', [f'Props.{prop}'])) + ['cliffdrv']
@@ -131,6 +134,10 @@ def check(prop, tier, seed):
     ax = {n: None for n in obligations}
     if build_ok:
         ax, auditlog = core.audit_axioms(obligations, getattr(mod, 'AUDIT_IMPORTS', [f'Props.{prop}']))
+    # generated equivalence theorems are obligations too
+    for t in tie_names:
+        obligations.append('TieA.' + t)
+        ax['TieA.' + t] = tie_ax.get(t)
     discharged = []
     for n in obligations:
         axs = ax.get(n)
@@ -143,6 +150,14 @@ def check(prop, tier, seed):
     if hits:
         broken.append('forbidden tokens: ' + '; '.join(hits))
         discharged = []
+    lc_info = None
+    if tier == 'thorough' and build_ok:
+        mods = core.local_import_closure(list(getattr(mod, 'LEAN_TARGETS', [f'Props.{prop}'])))
+        okc, outc, dtc = core.leanchecker(mods)
+        lc_info = dict(modules=mods, ok=okc, wall_s=round(dtc, 1))
+        if not okc:
+            broken.append('leanchecker rejects the compiled modules: ' + outc[-300:])
+            discharged = []
 
     # 4. correspondence + predicates on the real implementation
     jobs = mod.jobs(tier, seed)
@@ -230,14 +245,14 @@ def check(prop, tier, seed):
             theorems=[dict(name=n, axioms=ax.get(n)) for n in obligations],
             pending=list(getattr(mod, 'PENDING', [])),
             partial=list(getattr(mod, 'PARTIAL', [])),
-            generated_functions={fn: gen.get(fn, {}).get('status') for fn in getattr(mod, 'GENERATED', [])},
+            generated_functions={fn: st.get('status') for fn, st in gen.items()} if tie_names else {},
             traces_validated_against_impl=evaluations,
             evaluations=evaluations, distinct_nontrivial=len(nontrivial),
             rule=getattr(mod, 'RULE', ''),
             samples=samples if samples else [dict(obligation=o) for o in obligations[:3]],
             distribution=dist, broken=broken,
             jobs=[dict(job=r['job'], jit=r.get('jit'), wall_s=round(r['wall'], 1), evaluations=r['evaluations']) for r in results],
-            build_s=round(bdt, 1),
+            build_s=round(bdt, 1), leanchecker=lc_info,
         ),
         assumptions=list(getattr(mod, 'ASSUMPTIONS', [])),
         wall_s=round(wall, 2), violations=len(unlisted) + (1 if (broken and not unlisted) else 0),
